@@ -36,6 +36,15 @@ CHECKS["C18"] = dict(engine="filter", technique="differential property-based tes
    note="Filter reads the real clock: only quotas with a 1 h period are used there (no replenishment within a case). Global PERMIT_BAN_LIST reset per case, one case at a time per process.",
    ref="7.6 / C18")
 
+CHECKS["C05"] = dict(engine="codec", technique="property-based testing: round-trip law + differential against a reference codec written from the wire spec + mutation in the unmasked domain",
+   text="Exploration: hundreds of thousands of generated packets per run: structured packets of all kinds and sizes (incl. exactly 1280 bytes and overflow) must encode byte-identically to an independent reference encoder and round-trip with the exact authenticated data; field-level mutations applied before masking and arbitrary byte strings are judged by a reference decoder with the statement's must-reject list; any panic is a violation.",
+   note="Trusted: aes/ctr crates, enr crate for record validity. Excluded and counted: IVs whose low 64 bits wrap inside one datagram (CTR counter width is not fixed by the spec), destination ids sharing 128 leading bits.",
+   ref="7.1 / C05")
+CHECKS["C06"] = dict(engine="codec", technique="property-based testing: round-trip law + differential against a reference RLP codec + RLP-structure mutation",
+   text="Exploration: generated messages of all six kinds with boundary-biased fields and signed records must encode byte-identically to an independent RLP reference and round-trip (decode-encode idempotent); RLP-structure mutations and arbitrary bytes are judged by a reference decoder with the statement's must-reject list; any panic is a violation.",
+   note="Trusted: enr crate for record validity. Leniencies outside the statement's reject list are counted (tolerated_leniency), not reported.",
+   ref="7.1 / C06")
+
 NOT_YET = {}
 
 def main():
@@ -70,6 +79,7 @@ def main():
         },
         "engines": [
             {"name": "query", "path": "harness/src/engines/query.rs", "serves_properties": ["C09", "C10"], "kind_free_text": "proptest event histories over the real query state machines and QueryPool"},
+            {"name": "codec", "path": "harness/src/props/c05.rs, c06.rs, harness/src/refmodel/", "serves_properties": ["C05", "C06"], "kind_free_text": "proptest structured + mutation + byte generators vs. reference codecs"},
             {"name": "filter", "path": "harness/src/props/c18.rs", "serves_properties": ["C18"], "kind_free_text": "proptest arrival sequences over the real Limiter / Filter"},
             {"name": "table", "path": "harness/src/engines/table.rs", "serves_properties": ["C07", "C08", "C16"], "kind_free_text": "proptest op histories over the real KBucketsTable"},
         ],
